@@ -36,6 +36,14 @@ def exact_double(rng, lo, hi):
     return round(x * 1024) / 1024.0
 
 
+def widen(rng, h):
+    """a long double that is NOT a double: the hexadecimal literal of a double with 11 more mantissa bits appended"""
+    if 'p' not in h or '.' not in h:
+        return h
+    m, e = h.split('p')
+    return m + '%02x%x' % (rng.getrandbits(8) | 1, 2 * rng.getrandbits(3)) + 'p' + e
+
+
 def rand_value(rng):
     r = rng.random()
     if r < 0.12:
@@ -98,6 +106,24 @@ def gen_param_store(rng, sol, p, apis=('cxx',), steps=60, variant='exc'):
     order = list(e['pars']); rng.shuffle(order)
     for i, k in enumerate(order):
         S.append(['setp', p, pick_api(rng, p, apis), k, hexf(100.0 + i + exact_double(rng, 0.0, 0.5))])
+    S += sweep([(h, sol)], p, None, restore=False)
+    # parameter names are used verbatim: a registered name with blanks appended or prepended, in another case, with '-' for
+    # '_', with a tab or a character appended or cut short is an UNKNOWN name -- through every interface, set and get
+    # (systematic, no random draw): nothing changes, the getter answers -20
+    regd = set(e['pars'])
+    for k in ([e['pars'][0], e['pars'][-1], e['pars'][len(e['pars']) // 2]] if e['pars'] else []):
+        for dk in (k + ' ', k + '   ', ' ' + k, k.upper(), k.lower(), k.swapcase(), k.replace('_', '-'), k + '\t', k + 'x', k[:-1], k + '_'):
+            if dk in regd or dk == '':
+                continue
+            for a in apis if p == 'd' else ('cxx',):
+                S.append(['setp', p, a, dk, hexf(424242.5)])
+                S.append(['getp', p, a, dk])
+        S.append(['getp', p, 'cxx', k])
+    if p == 'ld':       # what is set is what is got, to the last of the 64 mantissa bits
+        wr = random.Random(len(e['pars']) * 7919 + 17)
+        for i, k in enumerate(e['pars']):
+            S.append(['setp', p, 'cxx', k, widen(wr, hexf(200.0 + i + exact_double(wr, 0.0, 0.5)))])
+            S.append(['getp', p, 'cxx', k])
     S += sweep([(h, sol)], p, None, restore=False)
     for _ in range(steps):
         r = rng.random()
@@ -270,10 +296,12 @@ def gen_purity(rng, sol, apis=('cxx',), variant='exc', nev=10, noise=25, reverse
     phase1 = setall('one', P, V) + sweeps() + run_evals(evs, 'one')
     phase3 = setall('one', P2, V2) + run_evals(evs, 'one') + setall('one', P, V) + run_evals(sh, 'one')
     phase4 = setall('two', P2, V2) + run_evals(sh, 'two')
+    # the environment moves too: after the first phase the process's errno is left at EDOM (ERANGE in the twin) and the
+    # floating-point exception flags are raised -- nothing an evaluator's value may depend on
     if not reverse:
-        S += phase1 + noise_calls() + phase3 + phase4 + sweeps()
+        S += phase1 + noise_calls() + [['ambient', 'd', 'cxx', 'edom']] + phase3 + phase4 + sweeps()
     else:
-        S += phase4 + noise_calls() + setall('one', P2, V2) + run_evals(sh, 'one') + setall('one', P, V) + run_evals(evs, 'one') + sweeps()
+        S += phase4 + noise_calls() + [['ambient', 'd', 'cxx', 'erange']] + setall('one', P2, V2) + run_evals(sh, 'one') + setall('one', P, V) + run_evals(evs, 'one') + sweeps()
     ex = Execution(S, variant=variant, label='purity:%s%s' % (sol, ':rev' if reverse else ''))
     return ex, plan
 
@@ -307,6 +335,12 @@ def gen_sentinel(rng, sol, variant='exc', per=2):
         for prov, ovs in groups.items():
             if prov:
                 S.append(['init', q, 'cxx', 'other', prov])
+                # ... and in THIS registry the provider answers each of these overloads first (the first call of an overload in
+                # the process): an overload that binds to the solution of its first call keeps answering for the provider
+                S.append(['init', p, 'cxx', 'prov', prov])
+                for fn, sig in ovs:
+                    S.append(eval_line(p, 'cxx', fn, sig, admissible_point(rng, prov, sig), 1))
+                S.append(['select', p, 'cxx', 'h'])
             # the calls that print (listings of an object without vectors print nothing but a frame): whatever they do to
             # the output stream, the complaint of the next unprovided evaluator must still appear
             S += [[rng.choice(['dispv', 'dispp', 'list', 'sanity']), p, 'cxx'] for _ in range(2)]
@@ -526,7 +560,10 @@ def closed_param(rng, sol, k):
     if k == 'm':
         return sgn(rng) * u(0.5, 3.0)
     if k in ('sigma', 'sigma_d'):
-        return u(0.5, 2.5)
+        # over seven decades (the decade is derived from the draw itself): a vague prior with precise data, or the reverse,
+        # is where an algebraically equivalent rewrite of the posterior moments cancels
+        v = u(0.5, 2.5)
+        return v * 10.0 ** ((int(v * 4096) % 7 - 3) if int(v * 64) % 3 else 0)
     return sgn(rng) * u(0.5, 3.0)
 
 
@@ -616,6 +653,16 @@ def scale_mix(rng, sol, vals, i=0):
 PROTECT = ('L', 'Lx', 'Ly', 'Lz', 'R', 'rho_0', 'p_0')      # Gamma = 0 is unphysical but the residual is finite there (only Gamma = 1 is singular)
 
 
+def similar_pairs(sol):
+    """pairs of parameters whose names differ in exactly one '_'-separated token (etaf1_N / etaf1_N2, a_ux / a_uy,
+    u_x / v_x, k_1 / k_2, A_x / A_t): the candidates for "same kind of quantity", set exactly equal by the tie plans"""
+    ps = [k for k in CAT[sol]['pars']]
+    def sim(a, b):
+        ta, tb = a.split('_'), b.split('_')
+        return len(ta) == len(tb) and sum(x != y for x, y in zip(ta, tb)) == 1
+    return [(a, b) for i, a in enumerate(ps) for b in ps[i + 1:] if sim(a, b)]
+
+
 def zeroable(sol):
     """parameters that may be set to EXACTLY zero without leaving the admissible set (amplitudes, frequencies,
     transport coefficients, constant parts of velocities): a fast path or guard keyed on an exact zero shows only there"""
@@ -642,7 +689,7 @@ def field_groups(sol):
     return G
 
 
-def gen_values(rng, sol, precs=('d', 'ld'), nassign=2, npts=3, evaluators=None, setter=None, variant='exc', paired=True, mix=False, zero_plan=None, oat=0):
+def gen_values(rng, sol, precs=('d', 'ld'), nassign=2, npts=3, evaluators=None, setter=None, variant='exc', paired=True, mix=False, zero_plan=None, oat=0, tie_plan=None, scale_plan=None, origin=False, wide=False):
     """set every parameter to an admissible random value, then evaluate every provided evaluator at random
     points; with paired=True the same assignment and points are used in both precisions (inputs are exact
     doubles, so both instantiations receive identical mathematical inputs)."""
@@ -663,6 +710,12 @@ def gen_values(rng, sol, precs=('d', 'ld'), nassign=2, npts=3, evaluators=None, 
         if zero_plan:
             for k in zero_plan[ai]:
                 vals[k] = 0.0
+        if tie_plan:            # two parameters exactly equal (a reuse keyed on the wrong pair of parameters shows only there)
+            for a_, b_ in tie_plan[ai]:
+                vals[b_] = vals[a_]
+        if scale_plan:          # one parameter far outside the usual range
+            for k, f in scale_plan[ai].items():
+                vals[k] *= f
         data = None
         if sol == 'cp_normal':
             data = [exact_double(rng, -3.0, 3.0) for _ in range(2 * rng.randint(0, 3) + 1 + (ai % 2))]      # lengths 1..8, odd and even alternating
@@ -687,16 +740,25 @@ def gen_values(rng, sol, precs=('d', 'ld'), nassign=2, npts=3, evaluators=None, 
             # ... and every other evaluator of the same arity at that very point
             pts += [(fn, sig, lpt, ldi) for fn, sig in caps if sig == ls and fn != lf]
             pts += [x for x in last_pts[:-1] if rng.random() < 0.3]
-        for _ in range(npts):
+        lscaled = bool(scale_plan) and any(k[0] == 'L' and abs(f) != 1 for k, f in scale_plan[ai].items())
+        for _ in range(0 if lscaled else npts):
             order = list(caps); rng.shuffle(order)
             for fn, sig in order:
                 dis = [rng.randint(-1, e['dim'] + 2)] if 'I' in sig else [None]
                 if sol == 'cp_normal' and 'I' in sig:
                     dis = [rng.randint(0, 20)]
                 pts.append((fn, sig, value_point(rng, sol, sig), dis[0]))
+        if origin:      # coordinates exactly 0: every non-empty subset of the coordinates of every evaluator (a guard on a phase,
+            # a quotient x / x, a branch on the sign of a coordinate)
+            for fn, sig in caps:
+                n = sig.count('S')
+                for mask in range(2 ** n - 1, 0, -1):      # all coordinates 0 first: the first evaluation of a fresh handle
+                    pt = value_point(rng, sol, sig)
+                    pt = [hexf(0.0) if mask >> i & 1 else pt[i] for i in range(n)]
+                    pts.append((fn, sig, pt, rng.randint(1, e['dim']) if 'I' in sig else None))
         if any(k[0] == 'L' for k in e['pars']):
             for fn, sig in caps:
-                if rng.random() < 0.5:
+                if lscaled or rng.random() < 0.5:
                     pts.append((fn, sig, value_point(rng, sol, sig, vals), rng.randint(1, e['dim']) if 'I' in sig else None))
         if sol == 'fans_sa_steady_wall_bounded':      # the limiter branch of the closure is active in a narrow band of wall distances (for
             # small mu): a ladder of 12 rungs over y = 10^-2.5 .. 10^-0.3 for the one evaluator that depends on it
@@ -712,10 +774,13 @@ def gen_values(rng, sol, precs=('d', 'ld'), nassign=2, npts=3, evaluators=None, 
                     t = exact_double(rng, 0.25, 1.0)
                     pts.append((fn, sig, [hexf(t * exact_double(rng, 0.002, 0.055)), hexf(t)], None))
         last_pts = pts[-len(caps):]
+        if ai > 0:      # the environment's step (errno, floating-point flags): the first assignment runs in a clean process
+            S.append(['ambient', 'd', 'cxx', ('edom', 'erange', 'clear')[(ai - 1) % 3]])
         for p in precs:
             S.append(['select', p, 'cxx', 'val' if ai % 2 == 0 else 'val2'])
             for k in e['pars']:
-                S.append(['setp', p, 'cxx', k, hexf(vals[k])])
+                # wide: long double parameters with all 64 mantissa bits in use (no double holds them)
+                S.append(['setp', p, 'cxx', k, widen(rng, hexf(vals[k])) if wide and p == 'ld' and not (sol == 'sod_1d' and k == 'Gamma') else hexf(vals[k])])
             if sol == 'sod_1d':
                 # mu = (Gamma-1)/(Gamma+1), correctly rounded in the precision at hand (30-digit decimal literal)
                 from decimal import Decimal, getcontext
@@ -743,6 +808,7 @@ def gen_values(rng, sol, precs=('d', 'ld'), nassign=2, npts=3, evaluators=None, 
         byarity0 = {}
         for fn, sig, pt, di in last_pts:
             byarity0.setdefault(sig, (pt, di))
+        S.append(['ambient', 'd', 'cxx', 'edom' if nassign % 2 else 'erange'])
         for p in precs:          # priming: the point of this phase is the LAST point evaluated before the first change, too
             for fn, sig in caps:
                 if sig in byarity0:
@@ -806,7 +872,8 @@ def gen_reduction(rng, big, small, zero, eqs, extra, npts=3, nassign=2, variant=
     for p in ('d', 'ld'):
         S.append(['init', p, 'cxx', 'big', big]); S.append(['init', p, 'cxx', 'small', small])
     lab = 0
-    for _ in range(nassign):
+    prev = None
+    for ai in range(nassign):
         shared = {}
         for k in CAT[big]['pars']:
             shared[k] = 0.0 if k in zero else admissible_param(rng, big, k)
@@ -819,6 +886,10 @@ def gen_reduction(rng, big, small, zero, eqs, extra, npts=3, nassign=2, variant=
             base = [exact_double(rng, -2.0, 2.0) for _ in range(nsmall)]
             ext = exact_double(rng, 0.0, 2.0)
             pts.append((base, ext))
+        # the very first evaluations of the fresh handles are at the origin (all coordinates and the time exactly 0: the
+        # first time level of a time loop); after new parameters, the first evaluations are at the previous point again
+        pts[0] = ([0.0] * nsmall, 0.0) if prev is None else prev
+        prev = pts[-1]
         for p in ('d', 'ld'):
             for h, sol in (('big', big), ('small', small)):
                 S.append(['select', p, 'cxx', h])
@@ -893,6 +964,41 @@ def gen_init_orders(rng, variant='exc', alloc=False, fill=None):
 
 
 COORD_LETTERS = {'axi': 'rz', 'cart': 'xyz'}
+
+
+def gen_late(rng, variant='exc'):
+    """calls made while the process is shutting down, from an atexit handler registered before the first MASA call (a
+    program that reads a parameter or evaluates in its clean-up code): the registries are library globals, alive until the
+    library itself is torn down -- reads, evaluations, a selection, even a new masa_init behave as always"""
+    sols = rng.sample([n for n in NONFIX if CAT[n]['pars']], 2) + ['radiation_integrated_intensity']
+    S = []
+    for p in ('d', 'ld'):
+        for i, sol in enumerate(sols):
+            S.append(['init', p, 'cxx', 'late%d' % i, sol])
+            k = CAT[sol]['pars'][0] if CAT[sol]['pars'] else None
+            if k:
+                S.append(['setp', p, 'cxx', k, hexf(exact_double(rng, 0.5, 2.0))])
+            for v in CAT[sol]['vecs']:
+                S.append(['setv', p, 'cxx', v, 3] + [hexf(exact_double(rng, 0.5, 2.0)) for _ in range(3)])
+            fn, sig = rng.choice(provided(sol))
+            S.append(eval_line(p, 'cxx', fn, sig, admissible_point(rng, sol, sig), 1))
+    S.append(['late'])
+    for p in ('d', 'ld'):
+        for i, sol in reversed(list(enumerate(sols))):
+            a = 'c' if p == 'd' and i == 0 else 'cxx'
+            S.append(['select', p, a, 'late%d' % i])
+            S.append(['name', p, a])
+            for k in CAT[sol]['pars'][:3]:
+                S.append(['getp', p, a, k])
+            for v in CAT[sol]['vecs']:
+                S.append(['getv', p, a, v])
+            fn, sig = rng.choice(provided(sol))
+            S.append(eval_line(p, 'cxx', fn, sig, admissible_point(rng, sol, sig), 1))
+        S.append(['list', p, 'cxx'])
+        S.append(['init', p, 'cxx', 'late0', sols[1]])
+        S.append(['init', p, 'cxx', 'verylate', sols[0]])
+        S.append(['sanity', p, 'cxx'])
+    return Execution(S, variant=variant, label='late')
 
 
 def gen_special_points(rng, sol, evaluators, variant='exc'):
